@@ -1351,6 +1351,22 @@ func toFloat64(v interface{}) (float64, error) {
 		return float64(val), nil
 	case int64:
 		return float64(val), nil
+	case int8:
+		return float64(val), nil
+	case int16:
+		return float64(val), nil
+	case int32:
+		return float64(val), nil
+	case uint:
+		return float64(val), nil
+	case uint8:
+		return float64(val), nil
+	case uint16:
+		return float64(val), nil
+	case uint32:
+		return float64(val), nil
+	case uint64:
+		return float64(val), nil
 	case string:
 		f, err := strconv.ParseFloat(val, 64)
 		if err != nil {
@@ -2111,8 +2127,8 @@ func (e *CoreExtension) filterRound(value interface{}, args ...interface{}) (int
 		result = math.Round(num*shift) / shift
 	}
 
-	// If precision is 0, return an integer
-	if precision == 0 {
+	// If precision is 0, return an integer (when it is one an int can hold)
+	if precision == 0 && result >= -9.2e18 && result <= 9.2e18 {
 		return int(result), nil
 	}
 
